@@ -274,20 +274,24 @@ Section Abs.
     - exact Ha.
   Qed.
 
+  Lemma map2_len f (u v : vec) n : length u = n -> length v = n -> length (map2 f u v) = n.
+  Proof.
+    revert v n. induction u as [|x u IH]; intros v n H1 H2; destruct v; cbn [map2 length] in *; try lia.
+    destruct n; try discriminate. f_equal. apply IH; lia.
+  Qed.
+  Lemma instr_val_len s i : length (instr_val e s i) = w.
+  Proof.
+    destruct i; cbn [instr_val]; fold w; try apply rd_op_len.
+    - unfold vbcast. rewrite map_length, seq_length. reflexivity.
+    - destruct o; cbn [vbin]; try (apply map2_len; apply rd_op_len).
+      unfold vpshufb. rewrite map_length, combine_length, seq_length, rd_op_len, Nat.min_id. reflexivity.
+    - unfold vshift. rewrite map_length, seq_length. reflexivity.
+    - unfold vshift. rewrite map_length, seq_length. reflexivity.
+  Qed.
   Lemma instr_val_rng s i : vec_rng (instr_val e s i).
   Proof.
     intros k. destruct (Nat.lt_ge_cases k w) as [Hk|Hk].
-    2:{ assert (L : length (instr_val e s i) = w).
-        { destruct i; cbn [instr_val]; fold w; try apply rd_op_len.
-          - unfold vbcast. rewrite map_length, seq_length. reflexivity.
-          - destruct o; cbn [vbin];
-              try (unfold vpshufb; rewrite map_length, combine_length, seq_length, rd_op_len, Nat.min_id; reflexivity).
-            all: clear; generalize (rd_op_len s a), (rd_op_len s b); generalize (rd_op e s a), (rd_op e s b); generalize w;
-              intros n u; revert n; induction u as [|x u IH]; intros n v H1 H2; destruct v; cbn [map2 length] in *; try lia;
-              destruct n; try discriminate; f_equal; apply (IH n); lia.
-          - unfold vshift. rewrite map_length, seq_length. reflexivity.
-          - unfold vshift. rewrite map_length, seq_length. reflexivity. }
-        rewrite nth_overflow by lia. reflexivity. }
+    2:{ rewrite nth_overflow by (rewrite instr_val_len; lia). reflexivity. }
     destruct i; cbn [instr_val]; fold w.
     - apply rd_op_rng.
     - apply bcast_rng.
@@ -325,7 +329,7 @@ Section Abs.
 
   (* ---- blocks ------------------------------------------------------------------------------------------ *)
   Definition store_rel (x : nat * nat * av) (y : nat * nat * vec) : Prop :=
-    fst (fst y) = fst (fst x) /\ snd (fst y) = (e_base e + snd (fst x))%nat /\
+    fst (fst y) = fst (fst x) /\ snd (fst y) = (e_base e + snd (fst x))%nat /\ length (snd y) = w /\
     forall i, (i < w)%nat -> lane_ok i (snd x) (nth i (snd y) 0).
   Definition log_ok (al : alog) (g : wlog) : Prop := Forall2 store_rel al g.
 
@@ -346,7 +350,7 @@ Section Abs.
     destruct (instr_dst i); cbn [awr wr_op fst snd]; try (split; assumption).
     - split; [apply sat_upd; assumption|assumption].
     - split; [apply sat_upd; assumption|assumption].
-    - split; [assumption|]. constructor; [|assumption]. repeat split. exact Hv.
+    - split; [assumption|]. constructor; [|assumption]. repeat split; [apply instr_val_len|exact Hv].
   Qed.
 
   Lemma exec_fold_ok b : forall A al s g, sat A s -> log_ok al g ->
